@@ -69,7 +69,10 @@ class C03(core.Check):
     rule = ("cases = (text, encoding, str|bytes, width, wrap, align); exhaustive strings up to N over the alphabet "
             "{a, b, space, newline, double-width U+4E16, zero-width U+0301} x widths 1..7 x 4 wraps x 3 aligns in utf-8 str "
             "mode (N=4 quick with all combinations up to 3 and a seeded third of length 4; thorough N=5 complete plus a seeded "
-            "part of length 6), plus random longer texts, plus utf-8 bytes / euc-jp / ascii texts judged by the oracle only; "
+            "part of length 6), plus random longer texts (incl. 4-byte characters), plus a systematic stream of texts with the characters "
+            "str.splitlines() treats as line boundaries (U+2028, U+2029, FF, VT, CR, U+0085, FS/GS/RS) for the natural-size consistency "
+            "of pack(()) / render(()) / rows, plus utf-8 texts ENDING in a 4-byte character at every overflowing width (bytes and str), "
+            "plus utf-8 bytes / euc-jp / ascii texts judged by the oracle only; "
             "non-trivial = the layout has more than one line, or a shift, or an omitted character; distinct by hash of (case, outcome)")
     trusted_base = [
         "Coq 8.16.1 kernel (coqc; vm_compute used only for closed examples)",
@@ -169,7 +172,11 @@ class C03(core.Check):
                 res["rows0"] = "Err:" + type(e).__name__
             try:
                 canv0 = urwid.Text(raw, align=align, wrap=wrap).render(())
-                res["render0"] = [[ord(c) for c in row.decode(enc, "surrogateescape")] for row in canv0.text]
+                if canv0.cols() == 0:
+                    # a zero-column canvas has rows but no content to read (content() rejects maxcol 0: canvas matter)
+                    res["render0"] = [[] for _ in range(canv0.rows())]
+                else:
+                    res["render0"] = [[ord(c) for c in row.decode(enc, "surrogateescape")] for row in canv0.text]
             except Exception as e:       # noqa: BLE001
                 res["render0"] = "Err:" + type(e).__name__
             try:
@@ -325,6 +332,27 @@ class C03(core.Check):
                         line_of[i] = k
         if msgs:
             return msgs
+
+        # ellipsis mode: the part beyond the width is REPLACED BY AN ELLIPSIS MARK - whenever the whole mark and at
+        # least one more column fit, an over-long line carries the mark; a line that fits carries none
+        if wrap == "ellipsis":
+            paras, cur = [], 0
+            for u in us:
+                if u[3] == "nl":
+                    paras.append(cur)
+                    cur = 0
+                else:
+                    cur += u[2]
+            paras.append(cur)
+            ew_full = len(ell.encode(case["enc"])) if case["enc"] != "utf-8" else sum(_wc(c) for c in ell)
+            if len(paras) == len(lay):
+                for k, ln in enumerate(lay):
+                    marks = [sg[3] for sg in ln if sg[0] == "I"]
+                    if paras[k] <= w and marks:
+                        msgs.append(f"line {k} fits in {w} columns but carries an ellipsis mark")
+                    if paras[k] > w and w - 1 >= ew_full and marks != [[ord(c) for c in ell]]:
+                        msgs.append(f"line {k} is {paras[k]} columns wide, width {w}: the cut part is not replaced by the "
+                                    f"ellipsis mark (inserted: {marks})")
 
         # every displayed line fits in the width (clip: after trimming, judged on the rendered row above)
         lws = []
@@ -745,7 +773,7 @@ class C03(core.Check):
 
 
 C03.level_text = (
-    "Proved in Coq (Properties/C03.v, 17 theorems, closed under the global context) about the executable model of "
+    "Proved in Coq (Properties/C03.v, 18 theorems, closed under the global context) about the executable model of "
     "StandardTextLayout / trim_line / apply_text_layout, for EVERY str text, every width >= 1, every wrap mode, alignment and "
     "ellipsis string, and every character-width function with widths in 0..2 and a 1-column space, with no size bound: "
     "layout never raises and the loops terminate within the model's fuel (layout_total; the 'space' mode 'unwrap previous "
@@ -756,14 +784,15 @@ C03.level_text = (
     "any/space/ellipsis line fits and each segment claims exactly its characters' columns (layout_fits_wrap/_ellipsis); "
     "'any' lines are maximal (any_maximal); 'space' breaks only at spaces or next to a double-width character when every "
     "word fits (space_breaks_at_spaces); alignment shift = 0 / (spare+1)//2 / spare (align_pad); rows() = number of rendered "
-    "rows = pack rows (rows_eq_len, pack_rows_eq_rows); a double-width character at width 1 gives [[]] and [[]] arises in no "
+    "rows = pack rows (rows_eq_len, pack_rows_eq_rows), and at the natural width reported by pack(()) (when >= 1 column) rows() "
+    "is the row count pack(()) reports, every mode (natural_size_rows); a double-width character at width 1 gives [[]] and [[]] arises in no "
     "other case (wide_in_one_column_empty, empty_line_only_if_cannot_display); rendering never raises and every row is exactly "
     "width columns for any/space (all alignments), ellipsis (all alignments, width >= 2) and left-aligned clip/ellipsis "
     "(render_total_partial_wrap/_trim), and a left-aligned clipped row is the longest fitting prefix "
     "(clip_left_row_is_longest_prefix).  PARTIAL: render_total_full (rendering of over-long clip lines with center/right "
     "alignment - trim_line cutting on both sides) is stated but not proved; it is decided by the exact model correspondence "
     "and the oracle only.  The model is hand-written and tied to the code by an exact extracted-model comparison of layout(), "
-    "rows(), pack((w,)), pack(()) and the rendered rows (about 42k cases per quick run: all strings up to length 3 over "
+    "rows(), pack((w,)), pack(()), the rendered rows and rows/render at the natural width (about 45k cases per quick run: all strings up to length 3 over "
     "{a, b, space, newline, U+4E16, U+0301} x widths 1..7 x 4 wraps x 3 alignments, a third of length 4, random longer "
     "texts); utf-8 bytes, euc-jp and ascii texts are judged by the independent oracle only.")
 C03.level_note = (
